@@ -34,15 +34,16 @@ import (
 // callSpec declares how one callee (key: see callKey) is rendered.
 // Templates: %r = receiver, %0 %1 .. = arguments (translated), %% = percent.
 type callSpec struct {
-	pure    string // value of the call as a Coq term; the call has no effect
-	partial bool   // .. and the term is an option: None = the call panics
-	ev      string // event appended to the trace tr_
-	res     string // value(s) the call returns; evaluated before the event is appended and the clock ticks
-	tick    bool   // k_ := S k_ afterwards (one more attempt of the external world)
-	state   string // term returning (results.., effect state): a call of another translated function with effects
-	ignore  bool   // declared to have no effect the model tracks: the statement is dropped, with a note
-	tail    string // constructor applied to the effect state for a call in tail position (the function ends with it)
-	spread  bool   // the call may pass its last argument with ... (the template sees the slice)
+	pure    string                              // value of the call as a Coq term; the call has no effect
+	partial bool                                // .. and the term is an option: None = the call panics
+	ev      string                              // event appended to the trace tr_
+	res     string                              // value(s) the call returns; evaluated before the event is appended and the clock ticks
+	tick    bool                                // k_ := S k_ afterwards (one more attempt of the external world)
+	state   string                              // term returning (results.., effect state): a call of another translated function with effects
+	ignore  bool                                // declared to have no effect the model tracks: the statement is dropped, with a note
+	tail    string                              // constructor applied to the effect state for a call in tail position (the function ends with it)
+	spread  bool                                // the call may pass its last argument with ... (the template sees the slice)
+	check   func(x *tr, c *ast.CallExpr) string // extra condition on the call; non-empty = why it is outside the fragment
 }
 
 type target struct {
@@ -91,6 +92,7 @@ type tr struct {
 	pending  []pend         // partial operations met in the expression being translated
 	npend    int
 	loops    []*loopCtx
+	optLoop  int      // > 0: inside the body of a loop that folds over option state
 	named    []string // Coq names of the named results (strict)
 	namedPos map[string]token.Pos
 	ignored  map[types.Object]bool
@@ -303,7 +305,18 @@ func (x *tr) letTuple(names []string, rhs string, body func() string) string {
 	return fmt.Sprintf("let '%s := %s in\n  %s", tuple(names), rhs, x.bind(names, body))
 }
 
+// scrut: a term in the scrutinee position of a match
+func scrut(t string) string {
+	if strings.HasPrefix(t, "if ") || strings.HasPrefix(t, "match ") {
+		return "(" + t + ")"
+	}
+	return t
+}
+
 func (x *tr) panicTerm() string {
+	if x.optLoop > 0 {
+		return "None" // the step of a fold over option state
+	}
 	if x.t.panicT != "" {
 		return x.t.panicT
 	}
@@ -323,7 +336,7 @@ func (x *tr) hoist(mark int, body func() string) string {
 	}
 	inner := x.bind(names, body)
 	for i := len(ps) - 1; i >= 0; i-- {
-		inner = fmt.Sprintf("match %s with\n  | None => %s\n  | Some %s => %s\n  end", ps[i].term, x.panicTerm(), ps[i].name, inner)
+		inner = fmt.Sprintf("match %s with\n  | None => %s\n  | Some %s => %s\n  end", scrut(ps[i].term), x.panicTerm(), ps[i].name, inner)
 	}
 	return inner
 }
@@ -385,7 +398,10 @@ func (x *tr) pkgVar(e ast.Expr) string {
 
 func (x *tr) hasCall(k string) bool { _, ok := x.t.calls[k]; return ok }
 
-func (x *tr) fill(tmpl string, c *ast.CallExpr) string {
+func (x *tr) fill(tmpl string, c *ast.CallExpr) string { return x.fillWith(tmpl, c, nil) }
+
+// fillWith: args, if given, are the arguments already translated
+func (x *tr) fillWith(tmpl string, c *ast.CallExpr, args []string) string {
 	var sb strings.Builder
 	for i := 0; i < len(tmpl); i++ {
 		if tmpl[i] != '%' || i+1 == len(tmpl) {
@@ -407,7 +423,11 @@ func (x *tr) fill(tmpl string, c *ast.CallExpr) string {
 			if k >= len(c.Args) {
 				x.bad(c, "call with fewer arguments than its declaration")
 			}
-			sb.WriteString(x.expr(c.Args[k]))
+			if args != nil {
+				sb.WriteString(args[k])
+			} else {
+				sb.WriteString(x.expr(c.Args[k]))
+			}
 		default:
 			sb.WriteByte('%')
 			sb.WriteByte(ch)
@@ -616,11 +636,28 @@ func (x *tr) expr(e ast.Expr) string {
 			x.bad(z, "operands of different translated types")
 		}
 		switch z.Op {
-		case token.LAND:
-			x.noPending(mark, z) // Go would not evaluate it when the left operand decides
-			return "(" + a + " && " + b + ")"
-		case token.LOR:
-			x.noPending(mark, z)
+		case token.LAND, token.LOR:
+			if len(x.pending) > mark {
+				// the right operand can panic, and Go evaluates it only when the left one does not
+				// decide: the whole test becomes ONE partial operation
+				if !x.t.strict || k != "bool" {
+					x.bad(z, "operation that can panic in a position where it is not supported")
+				}
+				ps := append([]pend{}, x.pending[mark:]...)
+				x.pending = x.pending[:mark]
+				opt := "Some " + paren(b)
+				for i := len(ps) - 1; i >= 0; i-- {
+					x.bound[ps[i].name]--
+					opt = fmt.Sprintf("match %s with None => None | Some %s => %s end", scrut(ps[i].term), ps[i].name, opt)
+				}
+				if z.Op == token.LAND {
+					return x.partial("if " + a + " then " + opt + " else Some false")
+				}
+				return x.partial("if " + a + " then Some true else " + opt)
+			}
+			if z.Op == token.LAND {
+				return "(" + a + " && " + b + ")"
+			}
 			return "(" + a + " || " + b + ")"
 		case token.EQL, token.NEQ:
 			var eq string
@@ -671,9 +708,17 @@ func (x *tr) expr(e ast.Expr) string {
 			return "(" + a + " - " + b + ")"
 		}
 	case *ast.SliceExpr:
-		// t[:n] on a string: panics outside 0..len(t)
+		// t[:n] / t[n:] on a string: panics outside 0..len(t)
 		if x.t.strict && z.Low == nil && z.High != nil && !z.Slice3 && x.kindOf(z.X) == "bytes" && x.kindOf(z.High) == "Z" {
 			return x.partial("str_prefix " + paren(x.expr(z.X)) + " " + paren(x.expr(z.High)))
+		}
+		if x.t.strict && z.Low != nil && z.High == nil && !z.Slice3 && x.kindOf(z.X) == "bytes" && x.kindOf(z.Low) == "Z" {
+			return x.partial("str_suffix " + paren(x.expr(z.X)) + " " + paren(x.expr(z.Low)))
+		}
+	case *ast.IndexExpr:
+		// s[i] on a string: the byte as a number; panics outside 0..len(s)-1
+		if x.t.strict && x.kindOf(z.X) == "bytes" && x.kindOf(z.Index) == "Z" {
+			return x.partial("str_at " + paren(x.expr(z.X)) + " " + paren(x.expr(z.Index)))
 		}
 	case *ast.CallExpr:
 		key := x.callKey(z)
@@ -681,8 +726,21 @@ func (x *tr) expr(e ast.Expr) string {
 			if cs.pure == "" {
 				x.bad(z, "call with effects inside an expression")
 			}
-			x.checkArgs(z)
-			t := x.fill(cs.pure, z)
+			// the arguments are evaluated once, in order, whether or not the rendering shows them
+			// (operations among them that can panic are hoisted like everywhere else)
+			if z.Ellipsis != token.NoPos && !cs.spread {
+				x.bad(z, "call with a spread argument")
+			}
+			if cs.check != nil {
+				if why := cs.check(x, z); why != "" {
+					x.bad(z, why)
+				}
+			}
+			args := make([]string, len(z.Args))
+			for i, a := range z.Args {
+				args[i] = x.expr(a)
+			}
+			t := x.fillWith(cs.pure, z, args)
 			if cs.partial {
 				return x.partial(t)
 			}
@@ -1871,28 +1929,62 @@ func (x *tr) switchStmt(z *ast.SwitchStmt, rest []ast.Stmt, k func() string) str
 	return build(0)
 }
 
-// rangeStrict: for _, v := range xs { body }  as a fold over the variables the body assigns
+// rangeStrict: for _, v := range xs { body } (a slice) or for k, v := range m { body } (a package-level
+// map, ranged in the order of the table the binder m_<name> stands for) as a fold over the variables
+// the body assigns.  A body that can panic folds over option state (None = it panicked).
 func (x *tr) rangeStrict(z *ast.RangeStmt, tail func() string) string {
-	if z.Tok != token.DEFINE || z.Value == nil {
+	if z.Tok != token.DEFINE {
 		x.bad(z, "range form")
 	}
-	if z.Key != nil {
-		if id, ok := z.Key.(*ast.Ident); !ok || id.Name != "_" {
+	rangeVar := func(e ast.Expr) string {
+		if e == nil {
+			return "_"
+		}
+		id, ok := e.(*ast.Ident)
+		if !ok {
+			x.bad(z, "range form")
+		}
+		if id.Name == "_" {
+			return "_"
+		}
+		return x.objName(x.p.TypesInfo.Defs[id], id.Name)
+	}
+	var coll, elk, elPat string
+	var elNames []string
+	if _, isMap := x.p.TypesInfo.TypeOf(z.X).Underlying().(*types.Map); isMap {
+		mt := x.p.TypesInfo.TypeOf(z.X).Underlying().(*types.Map)
+		name := x.pkgVar(z.X)
+		kk, vk := x.coqType(mt.Key()), x.coqType(mt.Elem())
+		if name == "" || kk == "?" || vk == "?" {
+			x.bad(z, "range over a map that is not a package-level table of the fragment")
+		}
+		coll = x.use("m_" + name)
+		elk = paren(kk) + " * " + paren(vk)
+		k, v := rangeVar(z.Key), rangeVar(z.Value)
+		elPat = "'(" + k + ", " + v + ")"
+		for _, n := range []string{k, v} {
+			if n != "_" {
+				elNames = append(elNames, n)
+			}
+		}
+	} else {
+		if z.Value == nil || rangeVar(z.Key) != "_" {
 			x.bad(z, "range with an index variable")
 		}
+		ck := x.kindOf(z.X)
+		if !strings.HasPrefix(ck, "list ") {
+			x.bad(z, "range over something that is not a slice of the fragment")
+		}
+		elk = ck[5:]
+		mark := len(x.pending)
+		coll = x.expr(z.X)
+		x.noPending(mark, z)
+		v := rangeVar(z.Value)
+		if v == "_" {
+			x.bad(z, "range form")
+		}
+		elNames = []string{v}
 	}
-	vid, ok := z.Value.(*ast.Ident)
-	if !ok {
-		x.bad(z, "range form")
-	}
-	ck := x.kindOf(z.X)
-	if !strings.HasPrefix(ck, "list ") {
-		x.bad(z, "range over something that is not a slice of the fragment")
-	}
-	elk := ck[5:]
-	mark := len(x.pending)
-	coll := x.expr(z.X)
-	x.noPending(mark, z)
 	hasBrk, hasRet := false, false
 	ast.Inspect(z.Body, func(n ast.Node) bool {
 		switch b := n.(type) {
@@ -1915,6 +2007,10 @@ func (x *tr) rangeStrict(z *ast.RangeStmt, tail func() string) string {
 		}
 		return true
 	})
+	canPanic := x.partialInside(z.Body.List)
+	if canPanic && x.t.panicT == "" {
+		x.bad(z, "operation that can panic inside a loop of a target without a panic outcome")
+	}
 	vars := x.outerAssigned(z.Body.List)
 	if len(vars) == 0 {
 		x.bad(z, "loop without a tracked effect")
@@ -1922,7 +2018,6 @@ func (x *tr) rangeStrict(z *ast.RangeStmt, tail func() string) string {
 	for _, v := range vars {
 		x.use(v)
 	}
-	el := x.objName(x.p.TypesInfo.Defs[vid], vid.Name)
 	// the fold state: the variables, then brk_ (the loop was left) and ret_ (.. by a return)
 	all := append([]string{}, vars...)
 	var init, cont, brk, ret []string
@@ -1933,24 +2028,53 @@ func (x *tr) rangeStrict(z *ast.RangeStmt, tail func() string) string {
 	if hasRet {
 		all, init, cont, brk, ret = append(all, "ret_"), append(init, "false"), append(cont, "false"), append(brk, "false"), append(ret, "true")
 	}
-	lc := &loopCtx{cont: func() string { return tuple(cont) }}
+	wrap := func(t []string) func() string {
+		if canPanic {
+			return func() string { return "Some " + paren(tuple(t)) }
+		}
+		return func() string { return tuple(t) }
+	}
+	lc := &loopCtx{cont: wrap(cont)}
 	if hasBrk {
-		lc.brk = func() string { return tuple(brk) }
+		lc.brk = wrap(brk)
 	}
 	if hasRet {
-		lc.ret = func() string { return tuple(ret) }
+		lc.ret = wrap(ret)
 	}
 	x.loops = append(x.loops, lc)
-	var lam string
-	if len(all) == 1 {
-		body := x.bind([]string{el}, func() string { return x.seq(z.Body.List, lc.cont) })
-		lam = fmt.Sprintf("(fun %s (%s : %s) => %s)", vars[0], el, elk, body)
+	if canPanic {
+		x.optLoop++
+	}
+	// the element: a plain binder, or a pair pattern for a map
+	elBinder, elOpen := "", ""
+	if elPat != "" {
+		elBinder, elOpen = "(kv_ : "+elk+")", "let "+elPat+" := kv_ in\n  "
 	} else {
-		body := x.bind(append([]string{el}, all...), func() string { return x.seq(z.Body.List, lc.cont) })
+		elBinder = "(" + elNames[0] + " : " + elk + ")"
+	}
+	body := x.bind(append(append([]string{}, elNames...), all...), func() string { return x.seq(z.Body.List, lc.cont) })
+	body = elOpen + body
+	stName := "st_"
+	if len(all) == 1 {
+		stName = all[0]
+	} else {
 		if hasBrk || hasRet {
-			body = "if (brk_ : bool) then st_ else\n  " + body
+			stop := "st_"
+			if canPanic {
+				stop = "Some st_"
+			}
+			body = "if (brk_ : bool) then " + stop + " else\n  " + body
 		}
-		lam = fmt.Sprintf("(fun st_ (%s : %s) => let '%s := st_ in\n  %s)", el, elk, tuple(all), body)
+		body = "let '" + tuple(all) + " := st_ in\n  " + body
+	}
+	var lam string
+	if canPanic {
+		lam = fmt.Sprintf("(fun ost_ %s => match ost_ with\n  | None => None\n  | Some %s => %s\n  end)", elBinder, stName, body)
+	} else {
+		lam = fmt.Sprintf("(fun %s %s => %s)", stName, elBinder, body)
+	}
+	if canPanic {
+		x.optLoop--
 	}
 	x.loops = x.loops[:len(x.loops)-1]
 	after := tail
@@ -1962,7 +2086,43 @@ func (x *tr) rangeStrict(z *ast.RangeStmt, tail func() string) string {
 			return fmt.Sprintf("if (ret_ : bool) then %s\n  else %s", x.t.final, tail())
 		}
 	}
+	if canPanic {
+		rest := x.bind(all, after)
+		return fmt.Sprintf("match fold_left %s %s (Some %s) with\n  | None => %s\n  | Some %s => %s\n  end",
+			lam, coll, paren(tuple(init)), x.panicTerm(), patTuple(all), rest)
+	}
 	return x.letTuple(all, fmt.Sprintf("fold_left %s %s %s", lam, coll, tuple(init)), after)
+}
+
+func patTuple(names []string) string {
+	if len(names) == 1 {
+		return names[0]
+	}
+	return "(" + strings.Join(names, ", ") + ")"
+}
+
+// partialInside: do the statements contain an operation that can panic?
+func (x *tr) partialInside(stmts []ast.Stmt) bool {
+	found := false
+	for _, s := range stmts {
+		ast.Inspect(s, func(n ast.Node) bool {
+			switch z := n.(type) {
+			case *ast.SliceExpr:
+				found = true
+			case *ast.IndexExpr:
+				if _, isMap := x.p.TypesInfo.TypeOf(z.X).Underlying().(*types.Map); !isMap {
+					found = true
+				}
+			case *ast.CallExpr:
+				key := x.callKey(z)
+				if cs, ok := x.t.calls[key]; (ok && cs.partial) || key == "strings.Repeat" || key == "panic" {
+					found = true
+				}
+			}
+			return true
+		})
+	}
+	return found
 }
 
 func translate(t *target) (def string, ok bool, why string) {
